@@ -56,7 +56,28 @@ def families(tier):
     out.append(("mixed", [("r1", 5, 1, ID_A, [], None), ("r2", 2, 0, ID_B, [], None), ("r3", 5, 0, ["and", [ID_A, ID_B]], [], None)], "ab"))
     out.append(("superiors", [("r1", 3, 1, ID_A, [], None), ("r2", 5, 0, ID_B, ["r1"], None)], "ab"))
     out.append(("extenders", [("r1", 3, 1, ID_A, [], ID_B)], "ab"))
+    # a three level hierarchy (superiors listed transitively closed, as the parser produces them)
+    out.append(("superiors3", [("top", 3, 1, ID_A, [], None), ("mid", 3, 0, ID_B, ["top"], None),
+                               ("low", 3, 0, ["id", False, "c"], ["mid", "top"], None)], "abc-gapwords"))
     return out
+
+
+HITS_ABC = [{}, {"a": 7}, {"b": 7}, {"c": 7}, {"a": 7, "b": 7}, {"b": 7, "c": 7}, {"a": 7, "c": 7}]
+
+
+def gapword_layouts(circular, tier):
+    """four genes in a row, consecutive gaps inside (1) or outside (3) the cutoff of 3; on the
+    ring the row is also placed so that it crosses the origin"""
+    glen = W.GENE_LEN
+    L = 40
+    for gaps in itertools.product((1, 3), repeat=3):
+        firsts = [3] if not circular else [3, L - glen - 2, L - 2 * glen - gaps[0] - 1]
+        for first in firsts:
+            starts = [first]
+            for gap in gaps:
+                starts.append(starts[-1] + glen + gap)
+            genes = [[f"g{i}", enc(ring_loc(s % L if circular else s, glen, L, 1 if i % 2 == 0 else -1))] for i, s in enumerate(starts)]
+            yield {"L": L, "circ": circular, "genes": genes}
 
 
 HITS_AB_FULL = [{}, {"a": 7}, {"b": 7}, {"a": 7, "b": 7}]
@@ -74,9 +95,14 @@ def layouts(L, circular, k):
 def shards(tier):
     out = []
     lengths = (13,) if tier == "quick" else (13, 16)
+    for circ in (False, True):
+        for chunk in range(N_CHUNKS):
+            out.append([40, circ, "superiors3", 4, chunk, N_CHUNKS, tier])
     for L in lengths:
         for circ in (False, True):
-            for fam, _, _ in families(tier):
+            for fam, _, mode in families(tier):
+                if mode == "abc-gapwords":
+                    continue
                 k = 4 if (tier == "thorough" and fam.startswith("chain") and L == 13) else 3
                 nchunks = N_CHUNKS if not fam.startswith("chain") or k == 4 else 2
                 for chunk in range(nchunks):
@@ -85,7 +111,7 @@ def shards(tier):
 
 
 def make_ruleset(rules_spec, hits):
-    profiles = ["a", "b"]
+    profiles = sorted({"a", "b"} | {p for table in hits.values() for p in table})
 
     def mk(profile):
         def detect(_record, _hmmer_hits):
@@ -142,6 +168,17 @@ def check_case(world, hits, rules_spec, stats=None):
     for proto in protos:
         protos_by_rule.setdefault(proto.product, []).append(proto)
     by_name = {spec[0]: spec for spec in rules_spec}
+    # the clusters every rule forms on its own (reference semantics, before any removal of inferiors): a superior's cluster
+    # counts for the SUPERIORS clause whether or not it is itself removed as inferior to a third rule
+    ref_cores = {}
+    for name, cutoff, neigh, tree, superiors, extender in rules_spec:
+        near = W.near_relation(world, cutoff)
+        ref_w = {"hits": {g: hits.get(g, {}) for g in feats}, "near": near}
+        own = {g for g in feats if hits.get(g) and rulesem.anchors(tree, g, ref_w)} | set(type_hits.get(name, set()))
+        groups = components(own, sets, cutoff, L, circ) if own else []
+        if extender is not None and groups:
+            groups = _merge_groups_through_extenders(groups, feats, sets, hits, extender, cutoff, L, circ)
+        ref_cores[name] = [_expected_core(frozenset().union(*[sets[g] for g in group]), L, circ) for group in groups]
     for name, cutoff, neigh, tree, superiors, extender in rules_spec:
         near = W.near_relation(world, cutoff)
         ref_w = {"hits": {g: hits.get(g, {}) for g in feats}, "near": near}
@@ -179,7 +216,7 @@ def check_case(world, hits, rules_spec, stats=None):
         if any(c.startswith(("core-wellformed", "extent-wellformed")) for c, _ in fails):
             continue
         # superiors: decide which groups may / must be dropped
-        sup_cores = [R.bases(p.core_location) for s in superiors for p in protos_by_rule.get(s, [])]
+        sup_cores = [core for s in superiors for core in ref_cores.get(s, [])]
         sup_core_genes = [{g for g in feats if sets[g] <= sc} for sc in sup_cores]
         used = set()
         for group in groups:
@@ -323,9 +360,12 @@ def run_shard(shard):
     spec = [f for f in families(tier) if f[0] == fam][0]
     _, rules_spec, hit_mode = spec
     index = 0
-    for world in layouts(L, circ, k):
+    for world in (layouts(L, circ, k) if hit_mode != "abc-gapwords" else gapword_layouts(circ, tier)):
         names = [g for g, _ in world["genes"]]
-        if hit_mode == "all-a":
+        if hit_mode == "abc-gapwords":
+            tables = [dict(zip(names, combo)) for combo in itertools.product(HITS_ABC, repeat=len(names))
+                      if sum(1 for c in combo if c) >= 2 and len({p for c in combo for p in c}) >= 2]
+        elif hit_mode == "all-a":
             tables = [{g: {"a": 7} for g in names}]
         else:
             menu = HITS_AB_FULL if (tier == "thorough" or len(names) < 3) else HITS_AB_SMALL
